@@ -23,3 +23,7 @@ def gen_config(rng, tier):
 # reach guard: a full-size batch in which one of these never fired means the workload or the
 # harness has rotted (exit 2, never a pass)
 REQUIRED_REACH = ['gate_slid_back_2+_layers', 'forward_through_circuit_map', 'forward_through_layer_compiled_only', 'compose_of_compiled_circuit', 'rejected_op', 'config:copy', 'config:compose', 'compile_with_3+_layers']
+
+
+def warm_extra():
+    circworld.warm_layouts()
